@@ -4,6 +4,7 @@ import (
 	"bytes"
 	"go/format"
 	"fmt"
+	"go/ast"
 	"go/parser"
 	"go/token"
 	"os"
@@ -299,6 +300,67 @@ func c01WithLineDirective(src []byte) []byte {
 	return out
 }
 
+// c01RestoreAllThenPrint restores the canonical files of one decorated package with a single
+// FileRestorer and prints them after the last one was restored; each must equal its source.
+func c01RestoreAllThenPrint(c *fw.Ctx, id string, pkg *dst.Package, fnames []string) {
+	type one struct {
+		name string
+		src  []byte
+		af   *ast.File
+	}
+	var rs []one
+	fr := decorator.NewRestorer().FileRestorer()
+	for _, fn := range fnames {
+		src := readFile(fn)
+		if src == nil || !corpus.Canonical(src) || c01FailsAny(src) {
+			continue
+		}
+		if len(rs) >= 8 {
+			break
+		}
+		fr.Name = filepath.Base(fn)
+		var af *ast.File
+		var err error
+		if s, d := fw.Try(func() { af, err = fr.RestoreFile(pkg.Files[fn]) }); s != "" {
+			c.Violate("restore-all-panic", s, id+": "+d, fn)
+			return
+		}
+		if err != nil {
+			return
+		}
+		rs = append(rs, one{fn, src, af})
+	}
+	if len(rs) < 2 {
+		return
+	}
+	c.Observe("entry_points", "FileRestorer.RestoreFile(all)+format.Node(later)")
+	for k, r := range rs {
+		c.Count("files:restore-all-then-print", 1)
+		var buf bytes.Buffer
+		var err error
+		if s, d := fw.Try(func() { err = format.Node(&buf, fr.Fset, r.af) }); s != "" {
+			c.Violate("restore-all-print-panic", s, id+": "+d, r.name)
+			return
+		}
+		if err == nil && bytes.Equal(buf.Bytes(), r.src) {
+			c.Count("roundtrips_ok", 1)
+			continue
+		}
+		pos := "last"
+		if k < len(rs)-1 {
+			pos = "earlier"
+		}
+		detail := fmt.Sprintf("%s: file %s (#%d of %d restored by one FileRestorer, printed after all were restored): ", id, r.name, k, len(rs))
+		if err != nil {
+			detail += shortErr(err)
+		} else {
+			detail += obs.DiffContext(buf.Bytes(), r.src)
+		}
+		c.Violate("roundtrip/restore-all-then-print", "roundtrip-restore-all-then-print:"+pos+"-file", detail, r.name)
+		return
+	}
+}
+
 func runC01(c *fw.Ctx) {
 	types := map[string]bool{}
 	points := map[string]bool{}
@@ -555,6 +617,9 @@ func runC01(c *fw.Ctx) {
 						c.Violate("roundtrip/ParseDir", sig, detail, fn)
 					}
 				}
+				// a package worker: one FileRestorer restores every file of the package first and the
+				// files are printed only afterwards (format.Node on the restorer's file set)
+				c01RestoreAllThenPrint(c, "dir:"+corpus.Rel(d)+"/"+pn, pkg, fnames)
 			}
 		})
 	}
